@@ -41,6 +41,7 @@ type Safe struct {
 	wrapAtoms map[string]atomID
 	wrapSrc   map[atomID]*Lin
 	divMemo   map[string][2]atomID
+	curSel    *selCtx
 	initialising bool // zero-initialisation of a fresh allocation in progress (not a program write)
 	fullyInit map[*AObj]bool // objects every element of which has been stored (composite literals)
 	LenRule   bool // evaluate the length-covers rule at returns of serialisers
